@@ -150,8 +150,8 @@ fn l1b_locals_steal_any() {
 #[kani::unwind(10)]
 #[kani::solver(kissat)]
 #[kani::stub(crate::atomic::Atom::try_update, crate::atomic::Atom::try_update_seq)]
-fn l1b_locals_steal_any_2_1_0() {
-    check_steal_any([2, 1, 0]);
+fn l1b_locals_steal_any_3_1_0() {
+    check_steal_any([3, 1, 0]);
 }
 fn check_steal_any(cfg: [usize; 3]) {
     crate::verif_contracts::kpolicy::init(false);
@@ -188,6 +188,13 @@ fn l1b_locals_demote_any() {
 #[kani::stub(crate::atomic::Atom::try_update, crate::atomic::Atom::try_update_seq)]
 fn l1b_locals_demote_any_0_1_2() {
     check_demote_any([0, 1, 2]);
+}
+#[kani::proof]
+#[kani::unwind(10)]
+#[kani::solver(kissat)]
+#[kani::stub(crate::atomic::Atom::try_update, crate::atomic::Atom::try_update_seq)]
+fn l1b_locals_demote_any_3_0_1() {
+    check_demote_any([3, 0, 1]);
 }
 fn check_demote_any(cfg: [usize; 3]) {
     crate::verif_contracts::kpolicy::init(false);
@@ -240,4 +247,14 @@ fn l1b_locals_get_put_swap() {
         clause!(ok == (p1 && t1 == ptree.0), "Locals::put succeeds iff the slot holds that tree");
         clause!(p2 == p1 && t2 == t1 && f2 == if ok { f1 + padd } else { f1 }, "Locals::put adds exactly the freed frames");
     });
+}
+
+/// `Locals::metadata_size` (C18): one cache-line slot per configured local slot.
+#[kani::proof]
+#[kani::unwind(6)]
+fn l0_locals_metadata_size() {
+    let n: [usize; 3] = kani::any();
+    kani::assume(n[0] <= 64 && n[1] <= 64 && n[2] <= 64);
+    let classing = Classing::new(&[(Class(0), n[0]), (Class(1), n[1]), (Class(2), n[2])], Class(0), |_, _, _| Policy::Match(0));
+    clause!(Locals::metadata_size(&classing) == (n[0] + n[1] + n[2]) * SLOT_BYTES, "C18: the slot metadata holds one cache-line slot per configured local slot");
 }
